@@ -503,6 +503,16 @@ class Facts:
                                 e["init_field"] = renames[(fn.cls, e["init_field"])]
         return {"%s::%s" % k: v for k, v in renames.items()}
 
+    def fn_or_host(self, qn, nparams, host_qn, host_nparams=None, host_pred=None):
+        """A private helper the rules anchor on may have been inlined into its only caller: the helper if it exists,
+        otherwise the caller (`host`) that now contains its statements. Returns (function, is_host)."""
+        c = [f for f in self.by_qn.get(qn, []) if nparams is None or len(f.params) == nparams]
+        if len(c) == 1:
+            return c[0], False
+        if not c:
+            return self.fn(host_qn, nparams=host_nparams, pred=host_pred), True
+        raise AnalysisBroken("anchor function %s (nparams=%s) resolved to %d definitions" % (qn, nparams, len(c)))
+
     def call_value(self, qn, obj, args, pred=None):
         """The value term a call `obj.qn(args)` yields under the current tree (single-return helpers are their expression)."""
         args = tuple(args)
